@@ -22,11 +22,11 @@ def _first_guarded_star_then_stargroup(toks):
 def classify_segment(toks, name, dot, icase, observed, fn_mode=True, nosep=''):
     """Attribute a single-name disagreement (fnmatch mode, or one path segment)."""
 
-    if name.endswith('\n'):
-        # `$` in a look-ahead also matches before a final newline: the name behaves as if the newline were absent
-        # inside negations / end-of-segment guards.
-        return 'KF-DOLLAR-NEWLINE'
-    for q, fid in (('B', 'KF-DOTGUARD-IN-REPEAT'), ('A', 'KF-DOTGUARD-POSITIONAL')):
+    for q, fid in ((('NL',), 'KF-DOLLAR-NEWLINE'), ('B', 'KF-DOTGUARD-IN-REPEAT'), ('A', 'KF-DOTGUARD-POSITIONAL'),
+                   (('NL', 'B'), 'KF-DOLLAR-NEWLINE'), (('A', 'B'), 'KF-DOTGUARD-POSITIONAL'),
+                   (('NL', 'A'), 'KF-DOLLAR-NEWLINE')):
+        if 'NL' in q and not name.endswith('\n'):
+            continue
         try:
             if R.seg_quirk(toks, name, dot, icase, nosep, q, fn_star=fn_mode, pathseg=bool(nosep)) == observed:
                 return fid
